@@ -138,6 +138,14 @@ void RouterSession::checkValidity(const char *when) {
                 curRoute = r;
                 std::string sig = "through-shape" + throughShapeClass(c, r[seg - 1], r[seg], sh.poly);
                 curRoute.clear();
+                if (sig == "through-shape" && which == 0 && ortho) {
+                    // the display route is the nudged one: nudging shifts a segment off the line it was routed along (y=305 -> 304),
+                    // so the known classes, which speak about the line the search used, are looked up on the un-nudged route()
+                    std::vector<Pt> rr = routePts(c.ref->route());
+                    curRoute = rr;
+                    for (size_t i = 1; i < rr.size() && sig == "through-shape"; i++) if (segHitsPoly(rr[i - 1], rr[i], sh.poly, 1e-7)) sig += throughShapeClass(c, rr[i - 1], rr[i], sh.poly);
+                    curRoute.clear();
+                }
                 if (ortho && r.size() == 2 && (c.e[0].dirs != 15 || c.e[1].dirs != 15) && sig == "through-shape") sig += ":direction-restricted-free-end-fallback";
                 std::string rt; for (auto &qq : r) rt += fmt("(%g,%g)", qq.x, qq.y);
                 violate("C03", "interior", sig, fmt("conn %d %s after %s: segment (%g,%g)-(%g,%g) passes through shape %d; route %s;%s", kv.first, wn, when, r[seg - 1].x, r[seg - 1].y, r[seg].x, r[seg].y, sk.first, rt.c_str(), describeScene().c_str()));
@@ -404,7 +412,13 @@ bool RouterSession::process(const Json &op, const char *when) {
             // (with the client's SelectiveReroute off, stale routes are expected; a zero move re-adds the shape and may improve them)
             probe("router.zero-move-transaction");
             size_t k = 0;
-            for (auto &kv : conns) if (kv.second.alive) { if (k < costBefore.size() && std::fabs(routeCost(kv.second.ref) - costBefore[k]) > 1e-6) { violate("C06", "noop", "zero-move-changed-a-route-cost", fmt("conn %d: %.9f -> %.9f", kv.first, costBefore[k], routeCost(kv.second.ref))); break; } k++; }
+            for (auto &kv : conns) if (kv.second.alive) { if (k < costBefore.size() && std::fabs(routeCost(kv.second.ref) - costBefore[k]) > 1e-6) { 
+                    // classifier: the re-route triggered by the zero move runs through a shape (a C03-type defect seen through this clause)
+                    std::string zs = "zero-move-changed-a-route-cost";
+                    std::vector<Pt> r = routePts(kv.second.ref->displayRoute());
+                    bool cls = false;
+                    for (auto &sk : shapes) if (sk.second.alive && !cls) for (size_t i = 1; i < r.size() && !cls; i++) if (segHitsPoly(r[i - 1], r[i], sk.second.poly, 1e-7)) { curRoute = r; zs += ":route-through-shape" + throughShapeClass(kv.second, r[i - 1], r[i], sk.second.poly); curRoute.clear(); cls = true; }
+                    violate("C06", "noop", zs, fmt("conn %d: %.9f -> %.9f", kv.first, costBefore[k], routeCost(kv.second.ref))); break; } k++; }
         }
     }
     pendingEdits = 0; zeroMoveOnly = false;
